@@ -106,7 +106,9 @@ func CheckC06(sc *Scenario, res *Result) *Violation {
 						break
 					}
 				}
-				if len(reports[e.Mod+"|"+lcName[phase]]) == 0 {
+				if sc.NoReports {
+					found = ""
+				} else if len(reports[e.Mod+"|"+lcName[phase]]) == 0 {
 					return violf("C06-report-missing", "panic in %s routine of %s was not reported through the module error channel", phase, e.Mod)
 				}
 				if found != "" {
@@ -120,6 +122,8 @@ func CheckC06(sc *Scenario, res *Result) *Violation {
 				}
 				if call := apiAfter(from); call != nil && call.ErrNil {
 					return violf("C06-lifecycle-error", "%s returned nil although the %s routine of %s, invoked by that call, panicked", call.Info, phase, e.Mod)
+				} else if call != nil && call.Report != nil && call.Report.IsPanic && !call.Report.HasStack {
+					return violf("C06-lifecycle-error", "%s returned a panic error without stack trace (%s routine of %s panicked)", call.Info, phase, e.Mod)
 				}
 			}
 		case "expected-counts":
@@ -189,7 +193,7 @@ func CheckC06(sc *Scenario, res *Result) *Violation {
 		} else {
 			cands = reports[mod+"|"+fmt.Sprintf("w%d", id)]
 		}
-		if len(cands) == 0 {
+		if len(cands) == 0 && !sc.NoReports {
 			return violf("C06-report-missing", "panic of %s #%d (module %s) was not reported through the module error channel", w.Kind, id, mod)
 		}
 		msg := ""
@@ -208,6 +212,9 @@ func CheckC06(sc *Scenario, res *Result) *Violation {
 	}
 	if anyPanic && lastReportSeen && lastReport == nil {
 		return violf("C06-last-report", "GetLastReportedError returned nothing although a panic was reported")
+	}
+	if anyPanic && lastReport != nil && lastReport.IsPanic && !lastReport.HasStack {
+		return violf("C06-last-report", "the last reported error is a panic error without stack trace")
 	}
 	if anyPanic && !lastReportSeen {
 		return violf("C06-last-report", "GetLastReportedError returned nil although a panic occurred")
